@@ -123,7 +123,7 @@ def b_str(V, st, args, kwargs, node):
 
 @_b('Path')
 def b_Path(V, st, args, kwargs, node):
-    v = args[0]
+    v = V.nn(st, args[0], node, 'Path() argument')
     if isinstance(v, SV) and v.t in (PATH, STR):
         return SV(PATH, v.z)       # assumption: the string is a normalised path
     raise Unsupported('Path() of %r' % (v,))
